@@ -726,6 +726,55 @@ var lastPanic string
 
 type badRef struct{}
 
+// execConc is exec for concurrent use: harness-global per-op options are not touched.
+func (st *store) execConc(line string) string {
+	if strings.HasPrefix(line, "serde ") {
+		ws := strings.Fields(line)
+		out := "panic"
+		func() {
+			defer func() { recover() }()
+			src, ok := st.pjs[ws[2]]
+			if !ok {
+				out = "bad-ref"
+				return
+			}
+			s1, s2 := simdjson.NewSerializer(), simdjson.NewSerializer()
+			d, err := s2.Deserialize(s1.Serialize(nil, *src), nil)
+			if err != nil {
+				out = "err"
+				return
+			}
+			st.pjs[ws[1]] = d
+			out = fmt.Sprintf("ok %d", len(d.Tape))
+		}()
+		return out
+	}
+	if strings.HasPrefix(line, "parse ") {
+		ws := strings.Fields(line)
+		out := "panic"
+		func() {
+			defer func() { recover() }()
+			b := unhx(ws[4])
+			st.inputs[ws[1]] = b
+			var pj *simdjson.ParsedJson
+			var err error
+			if ws[2] == "1" {
+				pj, err = simdjson.ParseND(b, nil, simdjson.WithCopyStrings(ws[3] == "1"))
+			} else {
+				pj, err = simdjson.Parse(b, nil, simdjson.WithCopyStrings(ws[3] == "1"))
+			}
+			if err != nil {
+				out = "err"
+				return
+			}
+			st.pjs[ws[1]] = pj
+			out = fmt.Sprintf("ok %d %s %d %s %d", len(pj.Tape), h64(fnvWords(pj.Tape)), len(pj.Strings.B), h64(fnvBytes(pj.Strings.B)), len(pj.Message))
+		}()
+		return out
+	}
+	return st.exec(line)
+}
+
 // execTimed runs exec with a watchdog.
 func (st *store) execTimed(line string, d time.Duration) string {
 	ch := make(chan string, 1)
